@@ -20,6 +20,18 @@ def with_aliases(suffixes):
     return out
 
 
+def name_is(defstr, suffix):
+    """does a (HIR or MIR) definition path name the function `suffix` (e.g. 'typecheck::get_tag'), also after a
+    recognised rename of that private function?"""
+    if not defstr:
+        return False
+    n = strip(defstr)
+    for s2 in with_aliases([suffix]) if ALIASES else [suffix]:
+        if n == s2 or n.endswith('::' + s2) or n.endswith(s2):
+            return True
+    return False
+
+
 def callee_matches(info, suffixes):
     if not info:
         return False
